@@ -21,6 +21,21 @@ func init() { register("sizes", sizesEngine{}, "C15") }
 func sizeList(tier string) []uint64 {
 	min := smallestDisk()
 	var l []uint64
+	// sizes below the smallest usable one: the server must either refuse them at
+	// start-up or produce a well-formed (if tiny) file system - "every disk size
+	// the server accepts"
+	lowStride := uint64(23)
+	if tier == "thorough" {
+		lowStride = 1
+	}
+	for s := uint64(1); s+60 < min; s += lowStride {
+		l = append(l, s)
+	}
+	for s := min - min2(min, 60); s < min; s++ {
+		if s >= 1 {
+			l = append(l, s)
+		}
+	}
 	if tier == "thorough" {
 		for s := min; s < min+400; s++ {
 			l = append(l, s)
@@ -46,6 +61,13 @@ func sizeList(tier string) []uint64 {
 	}
 	l = append(l, 8192, 16384, 20000, 65536-1, 65536, 65536+1)
 	return l
+}
+
+func min2(a, b uint64) uint64 {
+	if a < b {
+		return a
+	}
+	return b
 }
 
 func (sizesEngine) Gen(prop string, seed uint64, tier string) *Spec {
@@ -83,7 +105,9 @@ func (sizesEngine) Exec(spec *Spec) *Result {
 		starts := []uint64{0, uint64(sup.BitmapBlockStart()), uint64(sup.BitmapInodeStart()), uint64(sup.InodeStart()), uint64(sup.DataStart()), uint64(sup.MaxBnum())}
 		names := []string{"log", "block bitmap", "inode bitmap", "inode table", "data", "end"}
 		for i := 1; i < len(starts); i++ {
-			if starts[i] <= starts[i-1] {
+			// (an empty data region is not excluded by the property's wording; what such a
+			// disk must still satisfy is checked below)
+			if starts[i] < starts[i-1] || (starts[i] == starts[i-1] && i != 5) {
 				fail("size:regions", fmt.Sprintf("region %q [%d,%d) is empty or overlaps its predecessor", names[i-1], starts[i-1], starts[i]))
 			}
 		}
